@@ -26,7 +26,7 @@ func registerC10() {
 			"counting reader whose backing store is frame || 64 poison bytes || another valid file, under 14 chunkers (1 byte, odd sizes, 4095/4096/4097/5000, PRNG sizes, " +
 			"greedy readers that always fill the buffer, final chunk with io.EOF, occasional (0,nil), yields); for each of the six entry points: bytes delivered <= frame " +
 			"length, == header+data+2 after a successful Decode/CheckIntegrity, result equal to the whole-buffer result; the same frames also through bufio readers (16 and 4096 bytes), bytes.Buffer, strings.Reader behind io.LimitReader, io.MultiReader a reader offering ReadByte/UnreadByte/Seek/ReadAt/WriteTo/Len with short reads, and *os.File (a regular file on disk, and a pipe); family huge-frames: frames of 6, 9 and 17 MiB followed by poison bytes and another file, same consumption rules; family chains: concatenations of 1-5 files in PRNG " +
-			"order: DecodeChained returns one File per input equal to the solo decode, DecodeHeader / DecodeHeaderAndFileID report Decode's header and file_id. each chain is also decoded from a seekable reader (bytes.Reader, strings.Reader, io.SectionReader, *os.File) that holds other bytes in front and is handed over positioned at the start of one of the members. A case is one " +
+			"order: DecodeChained returns one File per input equal to the solo decode, DecodeHeader / DecodeHeaderAndFileID report Decode's header and file_id. each chain is also decoded from a seekable reader (bytes.Reader, strings.Reader, io.SectionReader, *os.File) that holds other bytes in front and is handed over positioned at the start of one of the members, and from a reader that ends the stream with an error value wrapping io.EOF (three kinds): same Files, no error. A case is one " +
 			"(file, chunker) pair or one chain; family announced-sizes: a valid header (12 or 14 bytes, header CRC right or zero) announcing a data size near 2^32, 2^31, 2^24, 2^16 or a PRNG value, followed by far fewer bytes than announced (nothing, two bytes, a whole valid record area with its CRC, the 14-byte header's own checksum continued to zero): a call that returns success must have consumed header+announced+2 bytes, which the store does not hold, so every call must fail, and none may panic; non-trivial: the call succeeded and consumption was measured; distinct by (input digest, chunker)",
 		Assume:        []string{"record.distance of records whose compressed_speed_distance expands is excluded from solo-vs-chained comparison (known finding F5, decided in C18)"},
 		MinNontrivial: 300,
@@ -588,6 +588,43 @@ func c10Chain(c *lib.Ctx, idx uint64) {
 			return
 		}
 	}
+	// round 13: the same chain from a source that signals its end with an error value that wraps
+	// io.EOF (a transport that annotates the end of the stream, `%w` style or a type with Unwrap,
+	// with or without the last bytes in the same Read). The decoder's own test for the end of
+	// input is errors.Is(err, io.EOF): the chain holds k valid files and nothing else, so the
+	// answer is k Files and no error, as with a bare io.EOF.
+	{
+		var endErr error
+		name := ""
+		switch idx % 3 {
+		case 0:
+			endErr, name = fmt.Errorf("transport: stream closed: %w", io.EOF), "fmt.Errorf(%w, io.EOF)"
+		case 1:
+			endErr, name = &wrappedEnd{io.EOF}, "error type with Unwrap() = io.EOF"
+		default:
+			endErr, name = fmt.Errorf("layer 2: %w", fmt.Errorf("layer 1: %w", io.EOF)), "io.EOF wrapped twice"
+		}
+		wr := &lib.Reader{Data: chain, Limit: len(chain), Ch: ch, Fault: true, FaultErr: endErr}
+		var wf []*fit.File
+		var werr error
+		ow := lib.Guard(func() { wf, werr = fit.DecodeChained(wr, opts...) })
+		c.Eval()
+		if ow.Panicked || ow.Hang {
+			c.Violation(chain, "DecodeChained panicked/hung on a chain of %d valid files whose reader ends with %s: %s", k, name, ow.Panic)
+			return
+		}
+		if werr != nil || len(wf) != k {
+			c.Violation(chain, "DecodeChained over %d valid files (chunker %s) whose reader ends with %s (errors.Is(err, io.EOF) holds) returned %d files, error %v; with a bare io.EOF: %d files, no error", k, ch, name, len(wf), werr, k)
+			return
+		}
+		for i := range wf {
+			if diffs := lib.CompareContent(lib.FileContent(files[i]), lib.FileContent(wf[i]), lib.CompareOpts{Header: true, Unknown: true, Skip: distanceSkip(wf[i])}); len(diffs) > 0 {
+				c.Violation(chain, "file %d of a chain decodes differently when the reader ends with %s: %s", i+1, name, lib.DiffsString(diffs, 3))
+				return
+			}
+		}
+		c.Count("chains_ending_with_a_wrapped_EOF", 1)
+	}
 	// The same chain behind something else in one seekable source (an envelope of other bytes,
 	// an earlier member already consumed by a Decode call): the reader is handed over positioned
 	// at the start of member m. A call starts where the reader stands; nothing in front of that
@@ -667,3 +704,9 @@ func c10Chain(c *lib.Ctx, idx uint64) {
 	c.Nontrivial(chain, []byte(ch.String()))
 	c.Sample("chain", 1, map[string]interface{}{"files": k, "bytes": len(chain), "chunker": ch.String()})
 }
+
+// wrappedEnd is an end-of-stream error of a dynamic type of its own that unwraps to io.EOF.
+type wrappedEnd struct{ inner error }
+
+func (e *wrappedEnd) Error() string { return "stream ended (" + e.inner.Error() + ")" }
+func (e *wrappedEnd) Unwrap() error { return e.inner }
